@@ -378,16 +378,23 @@ impl ops::Shr<&Object> for &Object {
     }
 }
 
+// Bit pattern used to hash numbers: values that compare equal (an integer and
+// the float of the same value, 0.0 and -0.0) must produce the same hash
+fn canonical_f64_bits(f: f64) -> u64 {
+    if f == 0. {
+        0
+    } else {
+        f.to_bits()
+    }
+}
+
 impl Hash for Object {
     fn hash<H: Hasher>(&self, state: &mut H) {
         match self {
-            Object::Integer(ref n) => n.hash(state),
+            Object::Integer(ref n) => state.write_u64(canonical_f64_bits(*n as f64)),
             Object::Char(ref ch) => ch.hash(state),
             Object::Byte(ref b) => b.hash(state),
-            Object::Float(ref f) => {
-                // Use the built-in hash function for f64
-                state.write_u64(f.to_bits());
-            }
+            Object::Float(ref f) => state.write_u64(canonical_f64_bits(*f)),
             Object::Bool(ref b) => b.hash(state),
             Object::Str(ref s) => s.hash(state),
             Object::Builtin(f) => f.name.hash(state),
